@@ -480,7 +480,13 @@ func runResolver(x *runner, sys string, in []byte) string {
 		x.sum.MaxRatio = ratio
 	}
 	if err != nil {
-		return retErr(err)
+		// Resolver errors quote names and requirements: the first three words
+		// are the family.
+		f := strings.Split(family(err), "-")
+		if len(f) > 3 {
+			f = f[:3]
+		}
+		return "err:" + strings.Join(f, "-")
 	}
 	nodeErrs := g.Error != ""
 	for _, n := range g.Nodes {
